@@ -207,6 +207,11 @@ pub fn pw<const N: u32>(m: &Meta) -> Result<PM<N>> {
     item_seam(N, "with", m).map(PM)
 }
 
+/// `with = pwo::<N>` on a field of type `Option<PM<N>>`
+pub fn pwo<const N: u32>(m: &Meta) -> Result<Option<PM<N>>> {
+    item_seam(N, "with", m).map(|t| Some(PM(t)))
+}
+
 /// `map = pmap::<N>`
 pub fn pmap<const N: u32>(v: PM<N>) -> PM<N> {
     let key = tok_item(&v.0).map(Key::Post);
